@@ -32,6 +32,8 @@ RAW = [
  ("addr-of-len", "a = [1, 2, 3]; p3 = &len(a); *p3 = 77; p(len(a)); p(len([4, 5, 6])); return 3"),
  ("struct-map-field-fresh", "make(type S, make(struct { M map[string]int64, L []int64, C chan int64 })); a = make(S); n = len(a.M); a.M[\"k\"] = n; b = make(S); p(n); return [n, len(b.M), len(a.M)]"),
  ("struct-nested-map-fresh", "make(type S2, make(struct { In struct { M map[string]int64 } })); a = make(S2); n = len(a.In.M); a.In.M[\"k\"] = 1; b = make(S2); return [n, len(b.In.M)]"),
+ ("addr-nil-literal", "p(nil); q9 = &nil; *q9 = 5; x9 = nil; return 1"),
+ ("addr-true-literal", "p(true); q8 = &true; *q8 = false; p(true); return true"),
  ("import-delete", "s = import(\"strings\"); t = import(\"strings\"); p(t.ToUpper(\"x\")); return s.ToUpper(\"y\")"),
  ("import-sort", "sort = import(\"sort\"); a = [3, 1, 2]; sort.Slice(a, func(i, j) { return a[i] < a[j] }); p(a); return a[0]"),
  ("varargs", "f = func(a, b...) { return len(b) + a }; p(f(1)); p(f(1, 2, 3)); x = [5, 6]; p(f(1, x...)); return f(0)"),
